@@ -4,11 +4,12 @@ set -u
 patch=$(readlink -f "$1"); shift
 wt=$(mktemp -d /tmp/govc-mut-XXXXXX)
 rmdir "$wt"
+out=$(mktemp -d /tmp/govc-mutout-XXXXXX)   # one output directory per invocation: concurrent runs must not share it
 git -C /repo worktree add -q "$wt" HEAD || exit 3
-trap 'git -C /repo worktree remove --force "$wt" >/dev/null 2>&1; rm -rf "$wt" /tmp/govc-mut-out' EXIT
+trap 'git -C /repo worktree remove --force "$wt" >/dev/null 2>&1; rm -rf "$wt" "$out"' EXIT
 if ! git -C "$wt" apply "$patch"; then echo "PATCH DOES NOT APPLY"; exit 3; fi
 (cd "$wt" && go build ./... ) || { echo "MUTANT DOES NOT BUILD"; exit 3; }
 if [ "${MUT_TESTS:-0}" = 1 ]; then (cd "$wt" && go test -mod=mod -vet=off -count=1 ./... 2>&1 | grep -v "^ok\|no test files" | head -20); fi
 for p in "$@"; do
-  GOVC_REPO="$wt" GOVC_OUT=/tmp/govc-mut-out ${GOVC_BIN:-/verif/bin/govc} check "$p" 2>&1 | grep "VIOLATION\|^C[0-9][0-9]:\|ERROR" | sed "s|$wt|<wt>|g" | cut -c1-400
+  GOVC_REPO="$wt" GOVC_OUT="$out" ${GOVC_BIN:-/verif/bin/govc} check "$p" 2>&1 | grep "VIOLATION\|^C[0-9][0-9]:\|ERROR" | sed "s|$wt|<wt>|g; s|$out|<out>|g" | cut -c1-400
 done
